@@ -308,6 +308,35 @@ func variants() []variant {
 		minichain.Seal(b)
 		return b
 	})
+	// a coinbase has exactly ONE input (the null one): a first transaction with the null input plus an
+	// ordinary one is no coinbase, and a later transaction with a null input among ordinary ones is invalid
+	for _, nullFirst := range []bool{true, false} {
+		nullFirst := nullFirst
+		name := "first-tx-null-input-plus-ordinary-input"
+		if !nullFirst {
+			name = "first-tx-ordinary-input-plus-null-input"
+		}
+		add(name, true, coins, func(c *ctx) *reftx.Block {
+			b := minichain.Build(c.spec(tag()))
+			cb := b.Txs[0]
+			o := c.p.Named["M0"]
+			extra := reftx.In{Prev: o.Tx, Vout: o.Vout, Sequence: 0xffffffff}
+			if nullFirst {
+				cb.In = append(cb.In, extra)
+			} else {
+				cb.In = []reftx.In{extra, cb.In[0]}
+			}
+			minichain.Seal(b)
+			return b
+		})
+	}
+	add("second-tx-null-input-plus-ordinary-input", true, coins, func(c *ctx) *reftx.Block {
+		s := c.spec(tag())
+		t := sp([]OP{c.p.Named["M0"]}, []reftx.Out{o1(5e8)})
+		t.In = append([]reftx.In{{Vout: 0xffffffff, Script: []byte{0x51, 0x51}, Sequence: 0xffffffff}}, t.In...)
+		s.Txs = []*reftx.Tx{t}
+		return minichain.Build(s)
+	})
 	add("no-transactions", true, nil, func(c *ctx) *reftx.Block {
 		b := minichain.Build(c.spec(tag()))
 		b.Txs = nil
